@@ -1210,13 +1210,14 @@ private:
          // reinitialize our list of currently active states with the ones defined in Derived::initial_state
          ::boost::mpl::for_each< seq_initial_states, ::boost::msm::wrap<mpl::placeholders::_1> >
                         (init_states(m_states));
-        // block immediate handling of events generated in the entry calls
-        m_event_processing = true;
-        // call on_entry on this SM
-        (static_cast<Derived*>(this))->on_entry(fsm_initial_event(),*this);
-        ::boost::mpl::for_each<initial_states, boost::msm::wrap<mpl::placeholders::_1> >
-            (call_init<fsm_initial_event>(fsm_initial_event(),this));
-        m_event_processing = false;
+        {
+            // block immediate handling of events generated in the entry calls
+            event_processing_blocker blocker(m_event_processing);
+            // call on_entry on this SM
+            (static_cast<Derived*>(this))->on_entry(fsm_initial_event(),*this);
+            ::boost::mpl::for_each<initial_states, boost::msm::wrap<mpl::placeholders::_1> >
+                (call_init<fsm_initial_event>(fsm_initial_event(),this));
+        }
         // give a chance to handle an anonymous (eventless) transition
         handle_eventless_transitions_helper<library_sm> eventless_helper(this,true);
         eventless_helper.process_completion_event();
@@ -1231,13 +1232,14 @@ private:
         // reinitialize our list of currently active states with the ones defined in Derived::initial_state
         ::boost::mpl::for_each< seq_initial_states, ::boost::msm::wrap<mpl::placeholders::_1> >
                         (init_states(m_states));
-        // block immediate handling of events generated in the entry calls
-        m_event_processing = true;
-        // call on_entry on this SM
-        (static_cast<Derived*>(this))->on_entry(incomingEvent,*this);
-        ::boost::mpl::for_each<initial_states, boost::msm::wrap<mpl::placeholders::_1> >
-            (call_init<Event>(incomingEvent,this));
-        m_event_processing = false;
+        {
+            // block immediate handling of events generated in the entry calls
+            event_processing_blocker blocker(m_event_processing);
+            // call on_entry on this SM
+            (static_cast<Derived*>(this))->on_entry(incomingEvent,*this);
+            ::boost::mpl::for_each<initial_states, boost::msm::wrap<mpl::placeholders::_1> >
+                (call_init<Event>(incomingEvent,this));
+        }
         // give a chance to handle an anonymous (eventless) transition
         handle_eventless_transitions_helper<library_sm> eventless_helper(this,true);
         eventless_helper.process_completion_event();
@@ -2805,18 +2807,27 @@ BOOST_PP_REPEAT(BOOST_PP_ADD(BOOST_MSM_VISITOR_ARG_SIZE,1), MSM_VISITOR_ARGS_EXE
          template<class Event>
          static void do_exit(library_sm*,Event const& ){}
      };
+     // blocks immediate handling of events while the entry behaviours run
+     // and allows it again when they are left, also if one of them throws
+     struct event_processing_blocker
+     {
+         event_processing_blocker(bool& flag):m_flag(flag){m_flag = true;}
+         ~event_processing_blocker(){m_flag = false;}
+         bool& m_flag;
+     };
      // entry/exit for states machines which are themselves embedded in other state machines (composites)
      template <class Event,class FsmType>
      void do_entry(Event const& incomingEvent,FsmType& fsm)
      {
         // by default we activate the history/init states, can be overwritten by direct_event_start_helper
         region_entry_exit_helper< ::boost::mpl::int_<0> >::do_entry(this,incomingEvent);
-        // block immediate handling of events
-        m_event_processing = true;
-        // if the event is generating a direct entry/fork, set the current state(s) to the direct state(s)
-        direct_event_start_helper(this)(incomingEvent,fsm);
+        {
+            // block immediate handling of events
+            event_processing_blocker blocker(m_event_processing);
+            // if the event is generating a direct entry/fork, set the current state(s) to the direct state(s)
+            direct_event_start_helper(this)(incomingEvent,fsm);
+        }
         // handle messages which were generated and blocked in the init calls
-        m_event_processing = false;
         // look for deferred events waiting
         handle_defer_helper<library_sm> defer_helper(m_deferred_events_queue);
         defer_helper.do_handle_deferred(true);
